@@ -1466,6 +1466,9 @@ def translate(obj, vec, **kwargs):
             new_ctrlpts.append(temp)
         g.ctrlpts = new_ctrlpts
 
+    # Containers cache the evaluated points of their elements
+    geom.reset()
+
     return geom
 
 
@@ -1563,6 +1566,9 @@ def rotate(obj, angle, **kwargs):
     for g in geom:
         rotfunc[axis](g, origin, angle)
 
+    # Containers cache the evaluated points of their elements
+    geom.reset()
+
     return geom
 
 
@@ -1597,6 +1603,9 @@ def scale(obj, multiplier, **kwargs):
         for idx, pts in enumerate(g.ctrlpts):
             new_ctrlpts[idx] = [p * float(multiplier) for p in pts]
         g.ctrlpts = new_ctrlpts
+
+    # Containers cache the evaluated points of their elements
+    geom.reset()
 
     return geom
 
@@ -1646,6 +1655,9 @@ def transpose(surf, **kwargs):
         g.knotvector_u = kv_u_new
         g.knotvector_v = kv_v_new
 
+    # Containers cache the evaluated points of their elements
+    geom.reset()
+
     return geom
 
 
@@ -1681,5 +1693,8 @@ def flip(surf, **kwargs):
             new_cpts[idx] = pt
             idx -= 1
         g.set_ctrlpts(new_cpts, size_u, size_v)
+
+    # Containers cache the evaluated points of their elements
+    geom.reset()
 
     return geom
